@@ -328,62 +328,124 @@ func partB(r *ev.Run, n int) {
 		go func(w int) {
 			defer wg.Done()
 			t := tree{root: filepath.Join(scratch, fmt.Sprintf("w%d", w), "T")}
-			if err := t.buildOutside(); err != nil {
-				r.EngineError(err.Error())
-				return
-			}
-			t.buildInside()
-			basedir := filepath.Join(t.root, "base")
-			outside0 := snapshot(t.root, basedir)
-			inside0 := snapshot(basedir, "")
-			fss := map[string]ros.FS{}
-			for _, b := range []string{"abs", "abs/", "abs/../base"} {
-				bb := strings.Replace(b, "abs", basedir, 1)
-				f, err := localfs.New(context.Background(), localfs.WithBase(bb))
-				if err != nil {
-					r.EngineError(err.Error())
-					return
-				}
-				fss[b] = f
-			}
-			for i := w; i < len(cases); i += nw {
-				c := cases[i]
-				class, read := runB(fss[c.Base], c, basedir)
-				r.Eval(1)
-				r.Outcome("B|" + c.Op + "|" + class + "|" + ev.Clip(strings.ReplaceAll(read, t.root, "T"), 40))
-				// (a directory listing that names outside.txt has listed the parent of the base; a path argument
-				// that itself spells the name proves nothing when it comes back in a walk or an error)
-				if strings.Contains(read, marker) || (strings.Contains(read, "outside.txt") && !strings.Contains(c.P, "outside.txt")) {
-					r.Report("localfs-read-outside", fmt.Sprintf("localfs(base=%s).%s(%q) returned content from outside the base: %q", c.Base, c.Op, c.P, ev.Clip(read, 80)), c, read, "content from inside the base or an error")
-				}
-				if c.Op == "MkdirTemp" && class == "ok" {
-					if !within(basedir, read) {
-						r.Report("localfs-mkdirtemp-outside", fmt.Sprintf("localfs(base=%s).MkdirTemp(%q, \"t\") created %q, outside the base", c.Base, c.P, strings.ReplaceAll(read, scratch, "<scratch>")), c, read, "a directory inside the base, or an error")
-					}
-					os.RemoveAll(read)
-				}
-				if c.Op == "WalkDir" {
-					for _, v := range strings.Split(read, ",") {
-						if v != "" && filepath.IsAbs(v) && !within(basedir, v) {
-							r.Report("localfs-walk-outside", fmt.Sprintf("localfs.WalkDir(%q) visited %q outside the base", c.P, v), c, v, "paths inside the base")
-						}
-					}
-				}
-				if out := snapshot(t.root, basedir); out != outside0 {
-					r.Report("localfs-write-outside", fmt.Sprintf("localfs(base=%s).%s(%q,%q) changed the tree outside the base", c.Base, c.Op, c.P, c.Q), c, diffLines(outside0, out), "tree outside the base unchanged")
-					os.RemoveAll(t.root)
-					t.buildOutside()
-					t.buildInside()
-				}
-				if _, err := os.Lstat(basedir); err != nil || snapshot(basedir, "") != inside0 {
-					t.buildInside()
-				}
-			}
+			workB(r, t, map[string]string{"abs": "<BASE>", "abs/": "<BASE>/", "abs/../base": "<BASE>/../base"}, cases, w, nw, scratch)
 		}(w)
 	}
 	wg.Wait()
+	// relative bases: the process stands in the base directory (or next to it) and the filesystem is rooted at ".",
+	// "./", "a/..", "base", "./base/", "a/../base". One worker, after the others (the working directory belongs to the process);
+	// the host's directory for temporary files is pointed at a directory of the tree outside the base, so that a
+	// temporary directory created "at the host's default place" shows up as a change outside the base.
+	var relCases []caseB
+	relPaths := append(genPaths(segsA, pairN+1), "", ".", "./", "/", "//", "a/..", "/a/b/../..", "a/../.", "..", "../base", "/..")
+	for _, base := range []string{"rel:.", "rel:./", "rel:a/..", "up:base", "up:./base/", "up:a/../base"} {
+		for _, op := range append([]string{"MkdirTemp"}, opsB...) {
+			for _, p := range relPaths {
+				switch op {
+				case "Rename", "Symlink":
+					relCases = append(relCases, caseB{"B", base, op, p, "keep2"}, caseB{"B", base, op, "keep", p})
+				default:
+					relCases = append(relCases, caseB{"B", base, op, p, ""})
+				}
+			}
+		}
+	}
+	if cwd0, err := os.Getwd(); err == nil {
+		t := tree{root: filepath.Join(scratch, "rel", "T")}
+		tmp0, hadTmp := os.LookupEnv("TMPDIR")
+		os.MkdirAll(filepath.Join(t.root, "hosttmp"), 0o755)
+		os.Setenv("TMPDIR", filepath.Join(t.root, "hosttmp"))
+		workB(r, t, map[string]string{"rel:.": ".", "rel:./": "./", "rel:a/..": "a/..", "up:base": "base", "up:./base/": "./base/", "up:a/../base": "a/../base"}, relCases, 0, 1, scratch)
+		os.Chdir(cwd0)
+		if hadTmp {
+			os.Setenv("TMPDIR", tmp0)
+		} else {
+			os.Unsetenv("TMPDIR")
+		}
+	}
+	cases = append(cases, relCases...)
 	r.Add("localfs_op_cases", len(cases))
 	r.Sample(cases[len(cases)/3])
+}
+
+// workB runs the cases start, start+step, ... on one real tree. bases maps the name of a base layout to the string
+// given to WithBase (<BASE> = the absolute base directory; a layout named "rel:" is built and used with the base
+// directory as the working directory of the process, "up:" with its parent).
+func workB(r *ev.Run, t tree, bases map[string]string, cases []caseB, start, step int, scratch string) {
+	if err := t.buildOutside(); err != nil {
+		r.EngineError(err.Error())
+		return
+	}
+	t.buildInside()
+	basedir := filepath.Join(t.root, "base")
+	os.MkdirAll(filepath.Join(t.root, "hosttmp"), 0o755)
+	outside0 := snapshot(t.root, basedir)
+	inside0 := snapshot(basedir, "")
+	cwdOf := func(name string) string {
+		switch {
+		case strings.HasPrefix(name, "rel:"):
+			return basedir
+		case strings.HasPrefix(name, "up:"):
+			return t.root
+		}
+		return ""
+	}
+	fss := map[string]ros.FS{}
+	for name, b := range bases {
+		if d := cwdOf(name); d != "" {
+			if err := os.Chdir(d); err != nil {
+				r.EngineError(err.Error())
+				return
+			}
+		}
+		f, err := localfs.New(context.Background(), localfs.WithBase(strings.Replace(b, "<BASE>", basedir, 1)))
+		if err != nil {
+			r.EngineError(err.Error())
+			return
+		}
+		fss[name] = f
+	}
+	for i := start; i < len(cases); i += step {
+		c := cases[i]
+		if d := cwdOf(c.Base); d != "" {
+			os.Chdir(d)
+		}
+		class, read := runB(fss[c.Base], c, basedir)
+		r.Eval(1)
+		r.Outcome("B|" + c.Op + "|" + class + "|" + ev.Clip(strings.ReplaceAll(read, t.root, "T"), 40))
+		// (a directory listing that names outside.txt has listed the parent of the base; a path argument
+		// that itself spells the name proves nothing when it comes back in a walk or an error)
+		if strings.Contains(read, marker) || (strings.Contains(read, "outside.txt") && !strings.Contains(c.P, "outside.txt")) {
+			r.Report("localfs-read-outside", fmt.Sprintf("localfs(base=%s).%s(%q) returned content from outside the base: %q", c.Base, c.Op, c.P, ev.Clip(read, 80)), c, read, "content from inside the base or an error")
+		}
+		if c.Op == "MkdirTemp" && class == "ok" {
+			created := read
+			if d := cwdOf(c.Base); d != "" && !filepath.IsAbs(created) {
+				created = filepath.Join(d, created)
+			}
+			if !within(basedir, created) {
+				r.Report("localfs-mkdirtemp-outside", fmt.Sprintf("localfs(base=%s).MkdirTemp(%q, \"t\") created %q, outside the base", c.Base, c.P, strings.ReplaceAll(read, scratch, "<scratch>")), c, read, "a directory inside the base, or an error")
+			}
+			os.RemoveAll(created)
+		}
+		if c.Op == "WalkDir" {
+			for _, v := range strings.Split(read, ",") {
+				if v != "" && filepath.IsAbs(v) && !within(basedir, v) {
+					r.Report("localfs-walk-outside", fmt.Sprintf("localfs.WalkDir(%q) visited %q outside the base", c.P, v), c, v, "paths inside the base")
+				}
+			}
+		}
+		if out := snapshot(t.root, basedir); out != outside0 {
+			r.Report("localfs-write-outside", fmt.Sprintf("localfs(base=%s).%s(%q,%q) changed the tree outside the base", c.Base, c.Op, c.P, c.Q), c, diffLines(outside0, out), "tree outside the base unchanged")
+			os.RemoveAll(t.root)
+			t.buildOutside()
+			os.MkdirAll(filepath.Join(t.root, "hosttmp"), 0o755)
+			t.buildInside()
+		}
+		if _, err := os.Lstat(basedir); err != nil || snapshot(basedir, "") != inside0 {
+			t.buildInside()
+		}
+	}
 }
 
 // hostSpellings: paths that begin with the host spelling of the base directory itself (a script learns it
